@@ -37,8 +37,9 @@ VARIABLES
     sv,      \* [Ports -> [st, fd]]  acceptor-side stream handles, by client port
     lh,      \* [st: "none" | "up" | "down", fd]  the listener handle
     pfx,     \* position in the forced prefix
-    zw,      \* ghost (known-finding family D4): a sender's retransmit budget was charged while the
-             \* peer advertised a zero window, or a full receiver discarded in-order data
+    zw,      \* ghost (known-finding family D4): a call blocked in a quiescent state during a zero-window
+             \* stall, a sender's retransmit budget was charged while the peer advertised a zero
+             \* window, or a full receiver discarded in-order data
     last     \* label of the action taken + what it returned (behaviour extraction)
 
 ivars == <<ks, wire, cl, sv, lh, pfx, zw>>
@@ -415,6 +416,14 @@ Accept ==
           /\ last' = [a |-> "accept", pp |-> ch.rp, lp |-> ch.lp]
     /\ UNCHANGED <<wire, cl, lh, zw>>
 
+\* known-finding family D4 (a): a sender has bytes (or its FIN) to send, nothing in flight, and a
+\* closed window; the receiver will not advertise again (reads below cap/2) and there is no probe.
+\* A call that blocks in a quiescent state while this holds is attributed to the family (ghost zw).
+ZeroWindowSender(s) == /\ ~s.lis /\ s.st \in TxStates
+                       /\ s.nxt = s.una /\ (Len(s.sb) > 0 \/ (s.fseq # -1 /\ s.nxt = s.fseq))
+                       /\ s.wnd = 0
+StallNow == \E h \in 1..2 : \E i \in 1..Len(ks[h].socks) : ZeroWindowSender(ks[h].socks[i])
+
 Handle(e) == IF e[2] = "c" THEN cl[e[1]] ELSE sv[e[1]]
 HostOf(e) == IF e[2] = "c" THEN 1 ELSE 2
 ByteVal(e, i) == (IF e[2] = "c" THEN 0 ELSE 100) + ((i - 1) % 90) + 1
@@ -424,8 +433,9 @@ Write(e, data) ==
     /\ LET h == HostOf(e)  r == KWrite(ks[h], Handle(e).fd, data) IN
        /\ ks' = [ks EXCEPT ![h] = r.k]
        /\ P_Write(e, data, r.res, r.n, ObsOf(ks'))
+       /\ zw' = (zw \/ (r.res = "wouldblock" /\ Quiescent /\ StallNow))
        /\ last' = [a |-> "write", p |-> e[1], side |-> e[2], data |-> data, res |-> r.res, n |-> r.n]
-    /\ UNCHANGED <<wire, cl, sv, lh, zw>>
+    /\ UNCHANGED <<wire, cl, sv, lh>>
 
 WriteMC(e, n) ==
     /\ Len(ep[e].wr) + n <= MaxBytes
@@ -436,8 +446,9 @@ Read(e, n) ==
     /\ LET h == HostOf(e)  r == KRead(ks[h], Handle(e).fd, n) IN
        /\ ks' = [ks EXCEPT ![h] = r.k]
        /\ P_Read(e, n, r.res, r.bytes, ObsOf(ks'))
+       /\ zw' = (zw \/ (r.res = "wouldblock" /\ Quiescent /\ StallNow))
        /\ last' = [a |-> "read", p |-> e[1], side |-> e[2], n |-> n, res |-> r.res, bytes |-> r.bytes]
-    /\ UNCHANGED <<wire, cl, sv, lh, zw>>
+    /\ UNCHANGED <<wire, cl, sv, lh>>
 
 \* exhaustive exploration: a read that would block changes nothing; it is only
 \* interesting (and only taken) in a quiescent state, where the PropSpec judges it
@@ -466,19 +477,21 @@ Close(e) ==
     /\ last' = [a |-> "close", p |-> e[1], side |-> e[2]]
     /\ UNCHANGED <<wire, lh, zw>>
 
-\* UdpSocket::send_to from host 1 to an unbound port of host 2 (udp::send_to)
-Udp(n) ==
-    /\ "udp" \in Ops
+\* A UDP socket on host 1 sends n bytes to an unbound port of host 2, either with
+\* send_to (mode "sendto") or connected: connect + try_send (mode "send").  Both end in
+\* udp::send_to, which rejects payloads above MTU - IP header - 8 with EMSGSIZE.
+Udp(n, mode) ==
+    /\ "udp" \in Ops /\ mode \in {"sendto", "send"}
     /\ LET tooBig == n > UdpMax
            p == [src |-> 1, dst |-> 2, sp |-> 0, dp |-> 0, seq |-> 0, ack |-> 0, fl |-> "U", win |-> 0,
                  data |-> [i \in 1..n |-> 0]]
            k1 == [ks[1] EXCEPT !.nfd = @ + 1]      \* the socket is bound, used once and dropped
        IN /\ ks' = [ks EXCEPT ![1] = IF tooBig THEN k1 ELSE Emit(k1, p)]
           /\ P_Udp(n, IF tooBig THEN "err" ELSE "ok", IF tooBig THEN 0 ELSE 1, ObsOf(ks'))
-          /\ last' = [a |-> "udp", n |-> n, res |-> IF tooBig THEN "err" ELSE "ok"]
+          /\ last' = [a |-> "udp", n |-> n, mode |-> mode, res |-> IF tooBig THEN "err" ELSE "ok"]
     /\ UNCHANGED <<wire, cl, sv, lh, zw>>
 \* exhaustive exploration: at most two probes, before any connect
-UdpMC(n) == ks[1].nfd <= 2 /\ natt = 0 /\ Udp(n)
+UdpMC(n, mode) == ks[1].nfd <= 2 /\ natt = 0 /\ Udp(n, mode)
 
 MaxAgeOf(w) == IF w = <<>> THEN 0 ELSE
                CHOOSE a \in {w[i].age : i \in 1..Len(w)} : \A i \in 1..Len(w) : w[i].age <= a
@@ -583,7 +596,7 @@ AWrite        == NR /\ (\E e \in Ports \X Writers, n \in WriteSizes : WriteMC(e,
 ARead         == NR /\ (\E e \in Ports \X Readers, n \in ReadSizes : ReadMC(e, n)) /\ Pf
 AShutdown     == NR /\ (\E e \in Ports \X Writers : ShutdownMC(e)) /\ Pf
 AClose        == NR /\ (\E e \in EPs : Close(e)) /\ Pf
-AUdp          == NR /\ (\E n \in UdpSizes : UdpMC(n)) /\ Pf
+AUdp          == NR /\ (\E n \in UdpSizes, m \in {"sendto", "send"} : UdpMC(n, m)) /\ Pf
 AEgress       == NR /\ EgressAll /\ Pf
 ADeliver      == NR /\ (\E i \in 1..Len(wire) : Deliver(i)) /\ Pf
 ADrop         == NR /\ (\E i \in 1..Len(wire) : DropPk(i)) /\ Pf
@@ -596,16 +609,9 @@ Spec == Init /\ [][Next]_vars
 ---------------------------------------------------------------------------
 (* Known-finding families: state predicates over the ImplSpec (DESIGN 7.2) *)
 
-\* D4: a sender has bytes to send, nothing in flight, and a closed window; the
-\* receiver will not advertise again (reads below cap/2) and there is no probe.
-ZeroWindowSender(s) == /\ ~s.lis /\ s.st \in TxStates
-                       /\ s.nxt = s.una /\ (Len(s.sb) > 0 \/ (s.fseq # -1 /\ s.nxt = s.fseq))
-                       /\ s.wnd = 0
-Dev_ZeroWindowStall == \E h \in 1..2 : \E i \in 1..Len(ks[h].socks) : ZeroWindowSender(ks[h].socks[i])
-
-\* the liveness half, with stalls of the recorded family set aside
+Dev_ZeroWindowStall == StallNow
 Dev_ZeroWindowAbort == zw
-ProgressOrKnown == ok.prog \/ Dev_ZeroWindowStall \/ Dev_ZeroWindowAbort
+ProgressOrKnown == ok.prog \/ Dev_ZeroWindowAbort
 AbortOrKnown    == ok.abort \/ Dev_ZeroWindowAbort
 
 ---------------------------------------------------------------------------
